@@ -52,8 +52,7 @@ class Race(RevokeStream):
     name = "revoke-race"
     testname = "TestVerifC04Race"
     rule = ("revoke(tree | accessor | lease id) of a parent or grandparent against a concurrent auth/token/create of a "
-            "child, both goroutines parked before every storage operation; four directed schedules (creator parked "
-            "before its parent-index write / between index and entry write / revoke first / create first) then seeded "
+            "child, both goroutines parked before every storage operation; five directed schedules then seeded "
             "random schedules; the observed schedule is replayed on the micro-step model (trace validation), then probe, "
             "list, and an explicit revocation of a surviving child")
 
@@ -67,16 +66,17 @@ class C04(PropCheck):
                   "budgets: revoke_cascade_seq (after a successful cascading revocation the target and every non-orphaned "
                   "descendant is dead and refused), revoked_stays_revoked, revoke_orphan_seq, revoke_restart (marker and "
                   "completed revocations are final across every crash prefix + restart). PARTIAL: revoke_fault_retry_partial "
-                  "(finality for every fault position; full cascade for positions that leave the state unchanged), "
+                  "(finality for every fault position; full cascade for every position that leaves the store unchanged, i.e. all but failures past a marker write), "
                   "revoke_vs_create_race_partial (every schedule in which the creator's storeCommon lookup follows the marker "
-                  "write). CEX (decide +kernel, replayed on the real core by the streams): revoke_fault_retry_cex (F2), "
-                  "_cex_read (F36), _cex_pending (F37), revoke_vs_create_race_cex (F3), race_survivor_not_revocable_cex (F35). "
+                  "write). CEX (decide +kernel, replayed on the real core by the streams): revoke_fault_retry_cex_pending (F37), "
+                  "revoke_vs_create_race_cex (F3), race_survivor_not_revocable_cex (F35); after the repair 17ec2c3 the former "
+                  "F2/F36 witnesses are theorems revoke_fault_retry_marker_write_recovers / _entry_read_recovers. "
                   "The model is tied to internal/vault by four differential streams with storage-operation trace validation "
                   "on every run, and the property's predicate is evaluated on the real core's answers in all of them")
     level_note = ("trusted: Lean kernel; the hand-written model and its differential tie; expiration-worker timing is "
                   "abstracted to 'lease marked expired = queued' (settle step); root namespace only; locks not modelled "
                   "(a blocked goroutine shows as a trace mismatch); the unchanged tree violates the full fault/race "
-                  "statements (F2, F3 and the fresh F35/F36/F37), reproduced on the real core on every run; the partial "
+                  "statements (F3, F35, F37; F2 and F36 were repaired by 17ec2c3 and their predicates stay armed), reproduced on the real core on every run; the partial "
                   "fault theorem does not cover retries from half-revoked states (stream revoke-fault only)")
     technique = ("Lean 4 theorems over a free-monad micro-step model (invariants, induction over histories/schedules, "
                  "decide +kernel witnesses) + differential correspondence with storage-operation trace validation")
